@@ -123,9 +123,9 @@ Definition enc_chunk (upper : bool) (ext d : bytes) : bytes :=
 Definition enc_last (ext trailer : bytes) : bytes := [48] ++ ext ++ crlf ++ trailer ++ crlf.
 
 (* Http::Stream::packChunk(): mb.appendf("%" PRIX64 "\r\n", length); append(data); append("\r\n") *)
-Definition pack_chunk (d : bytes) : bytes := enc_chunk true [] d.
+Definition pack_chunk : bytes -> bytes := enc_chunk true [].
 (* HttpStateData::getMoreRequestBody(): buf.appendf("%x\r\n", size); append(raw); append("\r\n") *)
-Definition up_chunk (d : bytes) : bytes := enc_chunk false [] d.
+Definition up_chunk : bytes -> bytes := enc_chunk false [].
 Definition last_chunk : bytes := [48; 13; 10; 13; 10].     (* "0\r\n\r\n" *)
 
 (* what a sender may put after the chunk size: nothing, or ';' / SP / HTAB followed by anything without CR, LF *)
